@@ -129,6 +129,11 @@ type Scenario struct {
 	Metrics    bool `json:"concurrent_metrics_reader"`
 	Vacuum     bool `json:"vacuum_exercise"`
 	Concurrent bool `json:"concurrency_quota"` // quota strategy "concurrent" (in-flight bound) instead of a fixed window
+	// routing level (routing.go): transactions through processRequest/processResponse of a real
+	// HandlingDataManager while its admin handlers run
+	Routing   bool `json:"routing_level,omitempty"`
+	Reloads   int  `json:"admin_reloads,omitempty"`     // POST /load_flows this many times while transactions run
+	Validates int  `json:"admin_validations,omitempty"` // two goroutines POST /validate_flows this many times each
 }
 
 type ChildResult struct {
@@ -136,6 +141,10 @@ type ChildResult struct {
 	Refused     int64 `json:"refused"`
 	Errors      int64 `json:"errors"`
 	MaxInFlight int64 `json:"max_in_flight"`
+	// routing level only
+	Transactions int64 `json:"transactions,omitempty"`
+	ReloadsDone  int64 `json:"reloads_done,omitempty"`
+	AdminErrors  int64 `json:"admin_errors,omitempty"`
 }
 
 func child() {
@@ -146,6 +155,10 @@ func child() {
 	repo := os.Getenv("VERIF_REPO")
 	if repo == "" {
 		repo = "/repo"
+	}
+	if sc.Routing {
+		routingChild(sc, repo)
+		return
 	}
 	wd, _ := os.Getwd()
 	flows, quotas, pp := filepath.Join(wd, "flows"), filepath.Join(wd, "quotas"), filepath.Join(wd, "path_params")
@@ -532,6 +545,15 @@ func staticPairs(path string) map[string]string {
 	return out
 }
 
+func adminLine(out string) string {
+	for _, l := range strings.Split(out, "\n") {
+		if strings.HasPrefix(l, "C18ADMIN ") {
+			return l
+		}
+	}
+	return ""
+}
+
 func common2(a, b []string) []string {
 	var out []string
 	for _, x := range a {
@@ -578,12 +600,20 @@ func main() {
 			{Goroutines: 2, PerG: 10, Max: 5},
 			{Goroutines: 8, PerG: 150, Max: 1, Concurrent: true},
 			{Goroutines: 12, PerG: 100, Max: 3, Concurrent: true, Metrics: true},
+			// routing level: engine reload through /load_flows while transactions run (F-C18c),
+			// two concurrent /validate_flows (F-C18d)
+			{Goroutines: 6, PerG: 20, Max: 30, Routing: true, Reloads: 4},
+			{Goroutines: 2, PerG: 10, Max: 5, Routing: true, Validates: 6},
 		}
 		for i := 0; i < o.Scale(1, 12, 6); i++ {
 			scenarios = append(scenarios, Scenario{Goroutines: o.Rng.Range(2, 12), PerG: o.Rng.Range(5, 40),
 				Max: o.Rng.Range(1, 60), Metrics: o.Rng.Bool(), Reload: o.Rng.Bool(), Vacuum: o.Rng.Bool()})
 			scenarios = append(scenarios, Scenario{Goroutines: o.Rng.Range(4, 12), PerG: o.Rng.Range(100, 500),
 				Max: o.Rng.Range(1, 3), Concurrent: true})
+			if i%2 == 1 || o.Tier == "search" {
+				scenarios = append(scenarios, Scenario{Goroutines: o.Rng.Range(2, 8), PerG: o.Rng.Range(5, 30),
+					Max: o.Rng.Range(1, 40), Routing: true, Reloads: o.Rng.Range(0, 5), Validates: o.Rng.Range(0, 4)})
+			}
 		}
 	}
 	// correspondence suite for the interference model: the real per-flow context manager
@@ -633,12 +663,23 @@ func main() {
 		os.MkdirAll(wd, 0o755)
 		scj, _ := json.Marshal(sc)
 		abs, _ := filepath.Abs(wd)
-		cmd := exec.Command(self)
-		cmd.Dir = wd
-		cmd.Env = append(os.Environ(), "C18_CHILD=1", "C18_SCENARIO="+string(scj),
-			"GORACE=log_path="+filepath.Join(abs, "race")+" halt_on_error=0 history_size=3",
-			"LUNAR_PROXY_LOG_LEVEL=error", "LOG_LEVEL=error")
-		outb, err := cmd.Output()
+		var outb []byte
+		var err error
+		for attempt := 0; attempt < 4; attempt++ {
+			cmd := exec.Command(self)
+			cmd.Dir = wd
+			env := os.Environ()
+			if sc.Routing {
+				env = routingEnv(abs, repo) // fresh ports on every attempt
+			}
+			cmd.Env = append(env, "C18_CHILD=1", "C18_SCENARIO="+string(scj),
+				"GORACE=log_path="+filepath.Join(abs, "race")+" halt_on_error=0 history_size=3",
+				"LUNAR_PROXY_LOG_LEVEL=error", "LOG_LEVEL=error")
+			outb, err = cmd.Output()
+			if ee, ok := err.(*exec.ExitError); !ok || ee.ExitCode() != portBusyExit {
+				break // anything but "a stub port was taken in the meantime"
+			}
+		}
 		var res ChildResult
 		okRes := false
 		for _, l := range strings.Split(string(outb), "\n") {
@@ -647,6 +688,10 @@ func main() {
 			}
 		}
 		total := sc.Goroutines * sc.PerG
+		if sc.Routing {
+			total = int(res.Transactions)
+			o.Count(fmt.Sprintf("routing:reloads=%d,validations=%d", sc.Reloads, sc.Validates))
+		}
 		o.Count(fmt.Sprintf("goroutines=%02d", sc.Goroutines))
 		js := map[string]any{"scenario": sc, "result": res}
 		o.Case0(js, total > sc.Max && sc.Goroutines >= 2)
@@ -662,7 +707,24 @@ func main() {
 		if int64(total) < want {
 			want = int64(total)
 		}
-		if sc.Concurrent {
+		if sc.Routing {
+			// Every reload is one step of the serial order and builds a fresh engine whose quota
+			// counters start from zero: in a one-at-a-time order with r reloads between min(total,max)
+			// and min(total,(r+1)*max) requests are admitted. Admin calls are expected to succeed
+			// (the files on disk never change) and no transaction may fail.
+			hi := int64(sc.Max) * (res.ReloadsDone + 1)
+			if int64(total) < hi {
+				hi = int64(total)
+			}
+			if res.Admitted < want || res.Admitted > hi || res.Errors != 0 || res.AdminErrors != 0 ||
+				res.Admitted+res.Refused+res.Errors != int64(total) || res.ReloadsDone != int64(sc.Reloads) {
+				o.Hit(c.Hit{Suite: "stress", Index: i, Signature: "not-serializable:routing-reload",
+					Demanded: fmt.Sprintf("%d <= admitted <= %d (some serial order of %d transactions and %d reloads), every transaction answered, no failed transaction or admin call",
+						want, hi, total, sc.Reloads),
+					Observed: fmt.Sprintf("admitted=%d refused=%d errors=%d admin_errors=%d reloads_done=%d; %s", res.Admitted, res.Refused, res.Errors,
+						res.AdminErrors, res.ReloadsDone, adminLine(string(outb))), Case: sc})
+			}
+		} else if sc.Concurrent {
 			// in-flight bound: at no instant more than max admitted transactions hold a slot
 			if res.MaxInFlight > int64(sc.Max) || res.Errors != 0 {
 				o.Hit(c.Hit{Suite: "stress", Index: i, Signature: "not-serializable:in-flight>max",
